@@ -122,13 +122,15 @@ def run(ctx):
             m, default = pdugen.gen_simple(rng), 'gsm0338'
         term = pdugen.msg_term(m)
         before = pdugen.msg_ser(m)
+        import copy
+        m0 = copy.deepcopy(m)                      # pdu() may change the encoding attribute: replays start from the original
         r = real_encode(m, default)
         r2 = real_encode(m, default) if r[0] == 0 else r       # pdu() twice gives the same bytes
         enc_cases.append((f'({pdugen.DEFAULTS[default]}, {term})', czl(r)))
         ctx.case(('enc', type(m).__name__, tuple(before)), nontrivial=len(r) > 17)
         ctx.count('encode_' + type(m).__name__ + ('' if r[0] == 0 else '_error'))
         if r[0] == 0 and r2 != r:
-            ctx.violation(f'{type(m).__name__}.pdu() gives different bytes when called twice', {'function': 'encode', 'message': repr(m)[:600]})
+            ctx.violation(f'{type(m).__name__}.pdu() gives different bytes when called twice', {'function': 'encode', 'message': repr(m)[:600], 'message_pickle': core.pickle_b64(m0)})
         if r[0] == 0:
             d, obj = real_decode(r[1:], default)
             dec_cases.append((f'({pdugen.DEFAULTS[default]}, {czl(r[1:])})', czl(d)))
@@ -140,7 +142,7 @@ def run(ctx):
             if valid and not ambiguous:
                 msg = oracle_roundtrip(before, m, default, r[1:], obj, getattr(m, 'encoding', None))
                 if msg:
-                    ctx.violation(f'{type(m).__name__}: {msg}', {'function': 'roundtrip', 'message': repr(m)[:900], 'default': default})
+                    ctx.violation(f'{type(m).__name__}: {msg}', {'function': 'roundtrip', 'message': repr(m)[:900], 'default': default, 'message_pickle': core.pickle_b64(m0)})
             # mutations of the bytes: model fidelity of the decoder on damaged input
             for _ in range(2):
                 b = list(r[1:])
@@ -160,7 +162,7 @@ def run(ctx):
                     ctx.case(('dec', tuple(b)))
         elif valid:
             ctx.violation(f'{type(m).__name__}.pdu() raised {common.EXN_NAMES[r[1]]} on a message inside the SMPP field space',
-                          {'function': 'encode', 'message': repr(m)[:900], 'default': default})
+                          {'function': 'encode', 'message': repr(m)[:900], 'default': default, 'message_pickle': core.pickle_b64(m0)})
         if i < 1:
             ctx.sample({'message': repr(m)[:300], 'pdu_hex': bytes(r[1:]).hex()[:120] if r[0] == 0 else r})
     if proved or not getattr(ctx, 'build_failing', None):
@@ -181,5 +183,22 @@ def run(ctx):
 
 
 def replay(ctx, path):
-    print('replay: re-run ./check C03 with the recorded VERIF_SEED')
+    import json
+    rp = json.load(open(path))
+    if rp.get('message_pickle'):
+        import copy
+        m = core.unpickle_b64(rp['message_pickle'])
+        default = rp.get('default', 'gsm0338')
+        m1 = copy.deepcopy(m)
+        r = real_encode(m1, default)
+        print('replay: message', repr(m)[:400])
+        if r[0] != 0:
+            print('replay: pdu() raised', common.EXN_NAMES[r[1]])
+            return 1
+        d, obj = real_decode(r[1:], default)
+        print('replay: pdu', bytes(r[1:]).hex()[:200])
+        msg = oracle_roundtrip(None, m, default, r[1:], obj, getattr(m1, 'encoding', None))
+        print('replay: round-trip oracle says:', msg or 'property holds on this input')
+        return 1 if msg else 0
+    print('replay:', json.dumps(rp)[:1500])
     return 0
